@@ -2,6 +2,14 @@
 // with the interposition layer (interpose.rs), drives workloads and runs
 // the oracles.  See /verif/DESIGN.md.
 
+/// Direct system call by the monitor itself (bypasses the interposed `syscall`).
+#[macro_export]
+macro_rules! rsys {
+    ($n:expr $(, $a:expr)* $(,)?) => {
+        $crate::interpose::real_syscall($n as libc::c_long, &[$($a as libc::c_long),*])
+    };
+}
+
 #[path = "../common.rs"]
 mod common;
 mod comm;
